@@ -41,6 +41,18 @@ pub fn main(prop: &'static str, args: &Args) {
         rep.set("algebra", extra);
         rep.absorb(t);
     }
+    if prop == "C01" {
+        // the wide receivers: all 216 field-option combinations under container configurations
+        let wide = wide_corpus(args.tier);
+        let wp = generate(&wide);
+        if let Err(e) = build(&wp) {
+            vrt::machinery(&format!("corpus build failed (wide):\n{}", e.chars().take(3000).collect::<String>()));
+        }
+        let t2 = run_shards(&wp, "C01", args.tier, &[]);
+        rep.set("wide_receivers", json!(wide.programs.len()));
+        rep.require(t2.counters.get("wide_inputs").copied().unwrap_or(0) > 1000, "wide receivers produced too few mistake-free inputs");
+        rep.absorb(t2);
+    }
     if prop == "C02" {
         // the body layer: fields / variants of the element's body (body corpus of C16); only the
         // error-reporting disagreements belong to C02
@@ -107,9 +119,11 @@ pub fn main(prop: &'static str, args: &Args) {
         "syn/proc-macro2 span-locations give true column ranges".into(),
     ];
     rep.require_counter("expect_ok");
+    if prop != "C01" {
     rep.require_counter("expect_err");
     for k in ["leaf_unknown", "leaf_duplicate", "leaf_missing", "leaf_format", "leaf_unknown_value", "leaf_custom", "leaf_too_few", "leaf_too_many"] {
         rep.require_counter(k);
+    }
     }
     rep.require(rep.tally.counters.get("generator_unparseable").is_none(), "generator produced unparseable sources");
     rep.require(main_programs == spec.programs.len(), "not every receiver was exercised");
